@@ -277,6 +277,7 @@ func (s *session) exec(rec opRecord, repeatOf int) {
 	s.o.Evals++
 	s.o.Steps++
 	s.log("%s -> %s", rec.desc, got.Show(s.w))
+	s.o.Observe(rec.desc, got.Key(s.w))
 	if got.Panic && strings.HasPrefix(got.Text, "PANIC ESCAPED") {
 		s.violate("panic", "panic:Exec", "%s: %s", rec.desc, got.Text)
 	}
@@ -506,6 +507,14 @@ func Run(t *simkit.Tape, o *simkit.Outcome, full bool) {
 
 	nops := 3 + t.Draw(22)
 	for i := 0; i < nops && len(o.Violations) == 0 && o.Harness == ""; i++ {
+		if i > 2 && t.Bool(1, 500) {
+			s.burst()
+			continue
+		}
+		if t.Bool(1, 20) {
+			s.battery()
+			continue
+		}
 		switch t.Pick(5, 8, 4, 3, 3, 3, 1, 2) {
 		case 0: // build a new expression
 			str, typ := model.GenExprAny(t, s.env)
@@ -630,6 +639,7 @@ func Run(t *simkit.Tape, o *simkit.Outcome, full bool) {
 			a := safeString(s.w.Cursor(ctx))
 			b := safeString(iso.Cursor(ctx))
 			s.log("GetCursorString(%s)", s.w.PathOf(ctx))
+			s.o.Observe("GetCursorString", a)
 			if a != b {
 				s.violate("I2-history-dependence", "history-dependence:GetCursorString", "GetCursorString(%s) = %q here but %q in a fresh world", s.w.PathOf(ctx), a, b)
 			}
@@ -649,6 +659,54 @@ func Run(t *simkit.Tape, o *simkit.Outcome, full bool) {
 	}
 	o.NonTrivial = len(s.recs) >= 3 || len(s.held) >= 3
 	o.Fingerprint = simkit.Hash64(strings.Join(s.ops, "\n"), fmt.Sprint(len(s.specs)), string(s.specs[0].Bytes))
+}
+
+// burst: a long stretch of failing queries in the middle of a history (a
+// caller whose user function keeps failing or panicking, a typo repeated in a
+// loop). Failing queries must not wear anything out: a query that succeeded
+// before the burst is repeated verbatim right after it.
+func (s *session) burst() {
+	// every shape evaluates its failing part whatever the document looks like
+	shapes := []string{"boom()", "(/)[boom()]", "count((/)[boom() = 1]) + 1", "string((/)[count((/)[boom()]) > 0])", "$unbound", "nosuchfunction(1)", "(/)[$unbound = 1]", "boom() | //*", "concat('a', string(count(//*) + boom()))"}
+	expr := shapes[s.t.Draw(len(shapes))]
+	kind := []string{"panic", "fail", "panic"}[s.t.Draw(3)]
+	n := []int{20, 200, 1500, 3000}[s.t.Pick(3, 3, 2, 1)]
+	g, err := xsel.BuildExpr(expr)
+	if err != nil {
+		s.o.HarnessDoubt("burst expression %q does not build: %v", expr, err)
+		return
+	}
+	b := &world.Bindings{NS: map[string]string{}, Vars: map[string]world.Value{}, Funcs: []world.FuncSpec{{Name: "boom", Kind: kind, At: -1, Const: world.Value{Type: "number", Num: 1}}}}
+	hooks := &world.Hooks{Grammar: func(string) (*xsel.Grammar, error) { return &g, nil }}
+	ctx := s.randomNode()
+	failed := 0
+	for i := 0; i < n; i++ {
+		r := world.Eval(s.w, world.ExecReq{Expr: expr, Ctx: ctx, Bindings: b}, hooks)
+		s.o.Evals++
+		if r.Err {
+			failed++
+		}
+		if r.Panic && strings.HasPrefix(r.Text, "PANIC ESCAPED") {
+			s.violate("panic", "panic:Exec", "Exec(%q) with a %sing callback: %s", expr, kind, r.Text)
+			return
+		}
+	}
+	s.o.Fault("burst-of-failing-queries")
+	s.o.FaultN("failing-query-in-burst", failed)
+	s.log("burst: %d x Exec(%s, %q) with boom() = %s -> %d failed", n, s.w.PathOf(ctx), expr, kind, failed)
+	s.o.Observe("burst", expr, fmt.Sprint(failed))
+	if failed != n {
+		s.violate("I3-repeat-differs", "failing-query-stops-failing", "%d executions of the failing query %q: %d failed, %d did not", n, expr, failed, n-failed)
+	}
+	s.checkI1("burst")
+	// something that worked before must still work the same way
+	for k := 0; k < 3 && len(s.recs) > 0; k++ {
+		ri := s.t.Draw(len(s.recs))
+		r := s.recs[ri]
+		r.desc = "repeat after burst: " + strings.TrimPrefix(strings.TrimPrefix(r.desc, "repeat: "), "repeat after burst: ")
+		s.o.Probe("repeated-operation-after-burst")
+		s.exec(r, ri)
+	}
 }
 
 func prefixIf(p, s string) string {
@@ -711,6 +769,7 @@ func (s *session) unmarshal() {
 	s.o.Evals += 2
 	s.o.Steps++
 	desc := fmt.Sprintf("Unmarshal(%s%s, %s)", h.name, map[bool]string{true: "[k:k+1]", false: ""}[len(res) == 1 && len(h.slice) != 1], world.UnmarshalTargets[ti].Name)
+	s.o.Observe(desc, gotOut, fmt.Sprint(gotFail))
 	s.log("%s -> fail=%v %s", desc, gotFail, gotOut)
 	if gotFail {
 		s.o.Fault("unmarshal-target-fails")
